@@ -437,11 +437,11 @@ var kindGVK = map[string]config.GroupVersionKind{
 func kindSlots(kind string) [][2]string {
 	switch kind {
 	case "ServiceEntry":
-		return [][2]string{{"a", "se1"}, {"a", "se2"}, {"b", "se3"}, {"istio-system", "se4"}}
+		return [][2]string{{"a", "se1"}, {"a", "se2"}, {"b", "se3"}, {"istio-system", "se4"}, {"b", "se1"}}
 	case "DestinationRule":
-		return [][2]string{{"a", "dr1"}, {"b", "dr2"}, {"istio-system", "dr3"}}
+		return [][2]string{{"a", "dr1"}, {"b", "dr2"}, {"istio-system", "dr3"}, {"b", "dr1"}}
 	case "VirtualService":
-		return [][2]string{{"a", "vs1"}, {"b", "vs2"}, {"istio-system", "vs3"}}
+		return [][2]string{{"a", "vs1"}, {"b", "vs2"}, {"istio-system", "vs3"}, {"b", "vs1"}, {"istio-system", "vs1"}}
 	case "Sidecar":
 		return [][2]string{{"a", "default"}, {"a", "sc-foo"}, {"b", "default"}, {"istio-system", "default"}}
 	case "PeerAuthentication":
@@ -455,7 +455,7 @@ func kindSlots(kind string) [][2]string {
 	case "EnvoyFilter":
 		return [][2]string{{"istio-system", "ef-root"}, {"a", "ef1"}}
 	case "Gateway":
-		return [][2]string{{"istio-system", "gw"}, {"a", "gw2"}}
+		return [][2]string{{"istio-system", "gw"}, {"a", "gw2"}, {"a", "gw"}}
 	case "WorkloadEntry":
 		return [][2]string{{"a", "we1"}, {"a", "we2"}, {"b", "we3"}}
 	case "WasmPlugin":
